@@ -633,7 +633,7 @@ where
         }
         self.thread_pool.stop();
         #[cfg(humphrey_verif)]
-        humphrey::verif::point("Loop_Exit", 0, 0);
+        humphrey::verif::point("Loop_Return", 0, 0);
     }
 
     /// Registers a shutdown signal to gracefully shutdown the app
